@@ -139,6 +139,194 @@ fn answers(g: &DebruijnGraph<K, u16>, idx: &RefIndex) -> Result<u64, String> {
     Ok(d.0)
 }
 
+// ------------------------------------------------------------------------------------
+// First use in a fresh process (labelled observation, like the rest of this file): an
+// application loads a saved BaseGraph and several threads finish and query it at once. Nothing
+// in the process has called into the k-mer code before the threads are released, so lazily
+// initialised shared state behind `finish()` / `find_link` (a table, a cache) is first touched by
+// racing callers. The parent computes the expected answers from `finish_serial()`.
+
+const FIRST_USE_KTYPES: [&str; 10] = ["Kmer8", "Kmer16", "Kmer20", "Kmer32", "Kmer40", "Kmer48", "Kmer64", "Kmer12w", "Kmer20w", "Kmer33u"];
+
+fn first_use_prepare<KK: Kmer + Send + Sync + serde::Serialize + serde::de::DeserializeOwned>(spec: &simcore::spec::GraphSpec, threads: usize, mode: u64) -> Option<serde_json::Value> {
+    let base: BaseGraph<KK, u16> = simcore::pipe::base_graph_for::<KK>(spec);
+    if base.len() < 2 {
+        return None;
+    }
+    let serial = base.clone().finish_serial();
+    let p = simcore::model::probes(&serial, &[]);
+    let want = simcore::model::transcript(&serial, &p);
+    let want_links: Vec<String> = p.iter().map(|k| format!("{:?} {:?}", serial.find_link(*k, Dir::Left), serial.find_link(*k, Dir::Right))).collect();
+    Some(json!({"ktype": spec.ktype, "threads": threads, "mode": mode, "want_links": want_links, "base": serde_json::to_string(&base).unwrap(), "probes": serde_json::to_string(&p).unwrap(), "want": want}))
+}
+
+fn first_use_child_k<KK: Kmer + Send + Sync + serde::Serialize + serde::de::DeserializeOwned + 'static>(doc: &serde_json::Value) -> i32 {
+    use std::sync::atomic::{AtomicBool, AtomicUsize, Ordering};
+    use std::sync::Arc;
+    // (as text: serde_json::Value cannot hold the u128 of the wide k-mer types)
+    let base: BaseGraph<KK, u16> = serde_json::from_str(doc["base"].as_str().unwrap_or("")).expect("base graph");
+    let probes: Arc<Vec<KK>> = Arc::new(serde_json::from_str(doc["probes"].as_str().unwrap_or("")).expect("probes"));
+    let want: Arc<Vec<String>> = Arc::new(serde_json::from_value(doc["want"].clone()).expect("transcript"));
+    let want_links: Arc<Vec<String>> = Arc::new(serde_json::from_value(doc["want_links"].clone()).expect("link lookups"));
+    let threads = doc["threads"].as_u64().unwrap_or(4) as usize;
+    let ready = Arc::new(AtomicUsize::new(0));
+    let go = Arc::new(AtomicBool::new(false));
+    // mode 1: the graph is finished once by the main thread (index construction only hashes) and
+    // shared; the racing threads' first action is the lookups. mode 0: every thread finishes its own
+    // copy first.
+    let shared_mode = doc["mode"].as_u64().unwrap_or(0) == 1;
+    let shared: Option<Arc<(DebruijnGraph<KK, u16>, DebruijnGraph<KK, u16>)>> = if shared_mode { Some(Arc::new((base.clone().finish(), base.clone().finish_serial()))) } else { None };
+    let mut hs = Vec::new();
+    for t in 0..threads {
+        let (b, probes, want, want_links, ready, go, shared) = (base.clone(), probes.clone(), want.clone(), want_links.clone(), ready.clone(), go.clone(), shared.clone());
+        hs.push(std::thread::spawn(move || -> Result<(), String> {
+            ready.fetch_add(1, Ordering::SeqCst);
+            while !go.load(Ordering::SeqCst) {
+                std::hint::spin_loop();
+            }
+            let own;
+            let g: &DebruijnGraph<KK, u16> = match &shared {
+                Some(s) => {
+                    if t % 2 == 0 {
+                        &s.0
+                    } else {
+                        &s.1
+                    }
+                }
+                None => {
+                    own = if t % 2 == 0 { b.finish() } else { b.finish_serial() };
+                    &own
+                }
+            };
+            // lookups first (the part of the query path that canonicalises), then the full transcript
+            // every thread starts at another probe, and at one whose answer goes through the
+            // reverse complement (probes come in groups of first, last, rc(first), rc(last), ...)
+            let n = probes.len();
+            for j in 0..n {
+                let i = (2 + 4 * t + j) % n;
+                let k = probes[i];
+                let got = format!("{:?} {:?}", g.find_link(k, Dir::Left), g.find_link(k, Dir::Right));
+                if got != want_links[i] {
+                    return Err(format!("thread {} ({}), query #{} of this thread, probe {}: find_link gave {} but the serially finished graph gives {}", t, if t % 2 == 0 { "finish" } else { "finish_serial" }, j, i, got, want_links[i]));
+                }
+            }
+            let got = simcore::model::transcript(g, &probes);
+            match simcore::model::first_diff(&got, &want) {
+                None => Ok(()),
+                Some(d) => Err(format!("thread {} ({}): {}", t, if t % 2 == 0 { "finish" } else { "finish_serial" }, d)),
+            }
+        }));
+    }
+    while ready.load(Ordering::SeqCst) < threads {
+        std::hint::spin_loop();
+    }
+    go.store(true, Ordering::SeqCst);
+    let mut bad = Vec::new();
+    for h in hs {
+        match h.join() {
+            Ok(Ok(())) => {}
+            Ok(Err(e)) => bad.push(e),
+            Err(_) => bad.push("a caller thread panicked".into()),
+        }
+    }
+    if bad.is_empty() {
+        println!("FIRST-USE ok threads={}", threads);
+        0
+    } else {
+        println!("FIRST-USE-MISMATCH {}", bad.join(" | ").chars().take(600).collect::<String>());
+        1
+    }
+}
+
+macro_rules! first_use_dispatch {
+    ($name:expr, $f:ident, $args:tt) => {{
+        use crate::ktypes::*;
+        match $name {
+            "Kmer8" => $f::<Kmer8> $args,
+            "Kmer16" => $f::<Kmer16> $args,
+            "Kmer20" => $f::<Kmer20> $args,
+            "Kmer32" => $f::<Kmer32> $args,
+            "Kmer40" => $f::<Kmer40> $args,
+            "Kmer48" => $f::<Kmer48> $args,
+            "Kmer64" => $f::<Kmer64> $args,
+            "Kmer12w" => $f::<Kmer12w> $args,
+            "Kmer20w" => $f::<Kmer20w> $args,
+            _ => $f::<Kmer33u> $args,
+        }
+    }};
+}
+
+pub fn first_use_child(path: &str) -> i32 {
+    let doc: serde_json::Value = match std::fs::read_to_string(path).ok().and_then(|t| serde_json::from_str(&t).ok()) {
+        Some(d) => d,
+        None => {
+            eprintln!("HARNESS-ERROR: cannot read {}", path);
+            return 2;
+        }
+    };
+    let kt = doc["ktype"].as_str().unwrap_or("").to_string();
+    first_use_dispatch!(kt.as_str(), first_use_child_k, (&doc))
+}
+
+/// Stand-alone run of the first-use leg (diagnostics): `sim-std c19-first-use [--seed N] [--tier T]`.
+pub fn first_use_only(opts: &Opts) -> i32 {
+    match first_use_leg(opts) {
+        Ok((ran, ok, bad)) => {
+            println!("[c19-first-use] {} processes, {} identical", ran, ok);
+            for (cs, d) in &bad {
+                println!("  case_seed={} {}", cs, d.chars().take(300).collect::<String>());
+            }
+            !bad.is_empty() as i32
+        }
+        Err(e) => {
+            println!("HARNESS-ERROR: {}", e);
+            2
+        }
+    }
+}
+
+/// Returns (processes run, processes ok, violations as (case seed, detail)) or Err(harness problem).
+fn first_use_leg(opts: &Opts) -> Result<(u64, u64, Vec<(u64, String)>), String> {
+    let n = if opts.tier == Tier::Thorough { 600 } else { 40 };
+    let exe = std::env::current_exe().map_err(|e| e.to_string())?;
+    let dir = std::env::var("VERIF_TMP").map(std::path::PathBuf::from).unwrap_or_else(|_| std::env::temp_dir());
+    let _ = std::fs::create_dir_all(&dir);
+    let (mut ran, mut ok, mut bad) = (0u64, 0u64, Vec::new());
+    for i in 0..n {
+        let cs = derive(opts.seed, "c19-first-use", i);
+        let mut rng = Rng::new(cs);
+        let kt = *rng.pick(&FIRST_USE_KTYPES);
+        let mut spec = simcore::spec::gen_graph_spec(&mut rng, &[kt], 8, 160);
+        if rng.chance(3, 4) {
+            spec.stranded = false;
+        }
+        let threads = rng.range(3, 12);
+        let mode = if rng.chance(2, 3) { 1u64 } else { 0 };
+        let doc = match first_use_dispatch!(kt, first_use_prepare, (&spec, threads, mode)) {
+            Some(d) => d,
+            None => continue,
+        };
+        let path = dir.join(format!("c19-first-use-{}-{}.json", std::process::id(), i));
+        std::fs::write(&path, serde_json::to_string(&doc).unwrap()).map_err(|e| e.to_string())?;
+        let o = std::process::Command::new(&exe).arg("c19-first-use-child").arg(&path).output().map_err(|e| e.to_string())?;
+        let _ = std::fs::remove_file(&path);
+        ran += 1;
+        let out = String::from_utf8_lossy(&o.stdout).to_string();
+        let err = String::from_utf8_lossy(&o.stderr).to_string();
+        if o.status.code() == Some(0) && out.contains("FIRST-USE ok") {
+            ok += 1;
+        } else if o.status.code() == Some(1) || err.contains("panicked") {
+            bad.push((cs, format!("{} {}", out.trim(), err.lines().filter(|l| l.contains("panicked")).collect::<Vec<_>>().join(" "))));
+            if bad.len() >= 3 {
+                break;
+            }
+        } else {
+            return Err(format!("first-use child ended with {:?} and no verdict: {}", o.status, err.chars().take(300).collect::<String>()));
+        }
+    }
+    Ok((ran, ok, bad))
+}
+
 pub fn run(opts: &Opts) -> i32 {
     let start = std::time::Instant::now();
     // watchdog: a finish() that never returns (e.g. the index construction cycling) is a violation
@@ -350,12 +538,44 @@ pub fn run(opts: &Opts) -> i32 {
             replay_files.push(path.display().to_string());
         }
     }
+    // ---- first use in a fresh process, racing callers
+    let mut first_use = (0u64, 0u64);
+    let leg = match guarded(|| first_use_leg(opts)) {
+        Ok(r) => r,
+        Err((loc, msg)) => Err(format!("panicked at {}: {}", loc, msg)),
+    };
+    match leg {
+        Ok((ran, ok, bad)) => {
+            first_use = (ran, ok);
+            evals += ran;
+            println!("[c19-large] first-use leg: {} fresh processes (3..12 threads finishing and querying a loaded graph at once), {} identical to finish_serial()", ran, ok);
+            samples.push(json!({"first_use_processes": ran, "identical": ok}));
+            for (cs, detail) in bad {
+                violations += 1;
+                let _ = std::fs::create_dir_all(&opts.replay_dir);
+                let path = opts.replay_dir.join(format!("C19-c19-large-first-use-{}.json", cs));
+                let doc = json!({"property": "C19", "check": "c19-large", "engine": "S", "verif_seed": opts.seed, "case_seed": cs,
+                    "violation": {"class": "first-use-race", "site": "finish / find_link by racing threads in a fresh process", "detail": detail},
+                    "note": "the graph and the probes replay exactly; which thread gets there first is the operating system's choice",
+                    "replay": format!("sim-std c19-large --seed {} --tier {}", opts.seed, opts.tier.as_str())});
+                let _ = std::fs::write(&path, serde_json::to_string_pretty(&doc).unwrap());
+                println!("violation check=c19-large class=first-use-race case_seed={}: {}", cs, doc["violation"]["detail"].as_str().unwrap_or("").chars().take(400).collect::<String>());
+                println!("VIOLATION property=C19 replay={}", path.display());
+                replay_files.push(path.display().to_string());
+            }
+        }
+        Err(e) => {
+            println!("HARNESS-ERROR: c19-large first-use leg: {}", e);
+            progress.store(u64::MAX, std::sync::atomic::Ordering::Relaxed);
+            return 2;
+        }
+    }
     let part = json!({
         "check": "c19-large", "property": "C19", "engine": "S (real pool; schedules NOT simulator-controlled)", "tier": opts.tier.as_str(), "seed": opts.seed,
         "evaluations": evals, "planned": evals, "nontrivial_runs": evals, "distinct_nontrivial": pools_seen.len() * n_cases as usize,
-        "rule": "supplementary observation, not simulation: one-node-per-k-mer graphs of 70k-140k nodes and one of more than 2^20 nodes (thorough: six graphs up to 1.1*10^6) finished on real rayon pools (quick: 4 sizes incl. 1 and 16, two sizes for the 2^20 graph; thorough: every size 1..16), twice each (once for the quick 2^20 graph), compared with finish_serial() (every edge list, 12 link lookups per node, serialised index); distinct = (graph, pool size) pairs",
+        "rule": "supplementary observation, not simulation: one-node-per-k-mer graphs of 70k-140k nodes and one of more than 2^20 nodes (thorough: six graphs up to 1.1*10^6) finished on real rayon pools (quick: 4 sizes incl. 1 and 16, two sizes for the 2^20 graph; thorough: every size 1..16), twice each (once for the quick 2^20 graph), compared with finish_serial() (every edge list, 12 link lookups per node, serialised index); plus fresh processes in which 3..12 threads are released together and finish()/finish_serial() and query a graph loaded from its serialised form (first use of the k-mer code by racing callers), each compared with the parent's finish_serial() transcript; distinct = (graph, pool size) pairs",
         "samples": samples,
-        "counters": {"env_real_pool_finish_runs": evals, "env_pool_sizes_used": pools_seen.len()},
+        "counters": {"env_real_pool_finish_runs": evals, "env_pool_sizes_used": pools_seen.len(), "env_first_use_race_processes": first_use.0, "first_use_processes_identical": first_use.1},
         "simulated_time_units": 0, "events": evals, "run_digest": "n/a",
         "wall_s": start.elapsed().as_secs_f64(), "search_wall_s": start.elapsed().as_secs_f64(), "runs_per_hour": 0, "violations": violations,
         "known_findings_hit": [], "replay_files": replay_files,
